@@ -1,4 +1,4 @@
-//go:build !skip_c19
+//go:build !skip_c19_grenew
 
 package main
 
